@@ -351,6 +351,14 @@ func (d dcase) String() string {
 }
 
 func runDurable(d dcase) (out []string) {
+	res := vrt.Run(vrt.Config{}, func() { out = runDurableBody(d); vrt.Join() })
+	if res.Status != vrt.StatusOK {
+		out = append(out, "a publish blocked for ever or crashed: "+res.Status.String())
+	}
+	return out
+}
+
+func runDurableBody(d dcase) (out []string) {
 	bad := func(f string, a ...any) { out = append(out, fmt.Sprintf(f, a...)) }
 	med, err := stores.NewMedium("durable")
 	if err != nil {
